@@ -8,6 +8,7 @@ CONSTANTS
   OddKinds = {"create_odd", "create_dot"}
   MaxSetup = 2
   MaxProbes = 1
+  MaxAfter = 0
   DotNameHandled = FALSE
   RpcPosCheckedFirst = FALSE
   Utf8LabelsHandled = FALSE
